@@ -367,7 +367,7 @@ var _ I__iter__ = (*List)(nil)
 var _ I__getitem__ = (*List)(nil)
 var _ I__setitem__ = (*List)(nil)
 
-// var _ richComparison = (*List)(nil)
+var _ richComparison = (*List)(nil)
 
 func (a *List) M__eq__(other Object) (Object, error) {
 	b, ok := other.(*List)
@@ -407,6 +407,34 @@ func (a *List) M__ne__(other Object) (Object, error) {
 		}
 	}
 	return False, nil
+}
+
+func (a *List) M__lt__(other Object) (Object, error) {
+	if b, ok := other.(*List); ok {
+		return orderItems(a.Items, b.Items, Lt, func(m, n int) bool { return m < n })
+	}
+	return NotImplemented, nil
+}
+
+func (a *List) M__le__(other Object) (Object, error) {
+	if b, ok := other.(*List); ok {
+		return orderItems(a.Items, b.Items, Le, func(m, n int) bool { return m <= n })
+	}
+	return NotImplemented, nil
+}
+
+func (a *List) M__gt__(other Object) (Object, error) {
+	if b, ok := other.(*List); ok {
+		return orderItems(a.Items, b.Items, Gt, func(m, n int) bool { return m > n })
+	}
+	return NotImplemented, nil
+}
+
+func (a *List) M__ge__(other Object) (Object, error) {
+	if b, ok := other.(*List); ok {
+		return orderItems(a.Items, b.Items, Ge, func(m, n int) bool { return m >= n })
+	}
+	return NotImplemented, nil
 }
 
 type sortable struct {
